@@ -41,7 +41,7 @@ defs = {
   "property_id": "C17", "quick_cmd": "./check C17 --tier quick", "thorough_cmd": "./check C17 --tier thorough",
   "evidence_file": "evidence/C17.json", "replay_cmd_template": "./check replay {path}", "engine": "bashsim",
   "level_claimed": {"category": "exploration",
-   "text": "The emitted bash script (real complgen output, real bash 5.2) runs among simulator-owned external commands: every {{{ }}} command is a probe that logs its identity and argv and then plays a seed-assigned behaviour (candidates, tab-separated descriptions, spaces, stderr noise, non-zero exit, empty output, duplicates, >64 KiB output). The recorded invocation history and COMPREPLY are checked against an independent Glushkov position automaton built from the generator's own grammar tree: a command never runs where the grammar does not expect it, receives exactly the documented arguments, its candidates are the text before the first tab filtered by the typed prefix, and earlier words are accepted exactly when they are candidates.",
+   "text": "The emitted bash script (real complgen output, real bash 5.2) runs among simulator-owned external commands: every {{{ }}} command is a probe that logs its identity and argv and then plays a seed-assigned behaviour (candidates, tab-separated descriptions, spaces, stderr noise, non-zero exit, empty output, duplicates, >64 KiB output). The recorded invocation history and COMPREPLY are checked against an independent Glushkov position automaton built from the generator's own grammar tree: a command never runs where the grammar does not expect it, receives exactly the documented arguments, its candidates are the text before the first tab filtered by the typed prefix, and earlier words are accepted exactly when they are candidates. Command lines include earlier words and typed prefixes that merely pattern-match (as shell globs) what is expected without being equal to / a prefix of it, extended and truncated words and candidates of other commands; the script's ambient readline configuration (`bind -v`: completion-ignore-case) is a simulator-owned seam answered `on` in a quarter of the bash processes.",
    "design_ref": "DESIGN.md 2.4, 3/C17"},
   "level_note": "Trusted: bash itself, the _get_comp_words_by_ref contract stub (honours -n EXCLUDE; the real bash_completion file is not installed in this sandbox), the reference model; grammars are generated 1-unambiguous per point so that union semantics and the script's matching priority coincide. A seeded sample of grammars, command lines and peer behaviours.",
   "technique": "deterministic simulation of the script's peers: simulator-owned probe commands with injected peer faults, history check against an executable reference model (position automaton)",
